@@ -9,7 +9,10 @@ from harness import reader_common as rc
 from harness.common import float_tok
 
 SEPS = [";", ",", "|", "\t", "~", "§", "¦"]
-TEXT_ALPHA = ["a", "b", "Z", "é", " ", " ", "-", "n", "N", "1", "0", ".", "*", ":", "_", "x", "µ", "=", "'", '"', " "]
+# includes characters that str.splitlines() treats as line breaks but file iteration does not
+# (form feed, FS/RS, NEL, LINE SEPARATOR, VT): they are ordinary in-line characters of a CSV cell
+TEXT_ALPHA = ["a", "b", "Z", "é", " ", " ", "-", "n", "N", "1", "0", ".", "*", ":", "_", "x", "µ", "=", "'", '"', " ",
+              "\x0c", "\x1c", "\x1e", "\x85", "\u2028", "\x0b"]
 
 
 def is_space(ch):
